@@ -31,8 +31,8 @@ type c13L struct {
 }
 
 func init() {
-	steps := []string{"sessionless", "discovery", "open", "rakp1", "rakp3", "insession", "close", "sdr-info", "sdr-reserve", "sdr-get1", "sdr-get3", "sdr-final"}
-	faults := []string{"blackhole", "late", "garbage", "tempcode", "trunc"}
+	steps := []string{"sessionless", "discovery", "open", "rakp1", "rakp3", "insession", "close", "sdr-info", "sdr-reserve", "sdr-get1", "sdr-get3", "sdr-final", "wrongpw"}
+	faults := []string{"blackhole", "late", "garbage", "tempcode", "trunc", "ffrun"}
 	register(&Check{
 		ID:      "C13",
 		Level:   "fault_enumeration",
@@ -49,14 +49,14 @@ func init() {
 			for _, st := range steps {
 				for fi, f := range faults {
 					for ri, rt := range ratios {
-						if tier == "quick" && (fi+ri+len(st))%3 != int(seed%3+3)%3 {
+						if tier == "quick" && (fi+ri+len(st))%3 != int(seed%3+3)%3 && !(st == "wrongpw" && f == "blackhole" && ri < 2) {
 							continue
 						}
 						cs = append(cs, ev.MkCase("udp", c13P{Step: st, Fault: f, Timeout: rt[0], Deadline: rt[1], Seed: seed}))
 					}
 				}
 				cs = append(cs, ev.MkCase("udp", c13P{Step: st, Fault: "blackhole", Timeout: 2000, Deadline: -50, Seed: seed}))
-				for _, f := range []string{"lost", "garbage", "busy", "expired"} {
+				for _, f := range []string{"lost", "garbage", "busy", "expired", "ffrun"} {
 					cs = append(cs, ev.MkCase("mem", c13L{Step: st, Fault: f, Seed: seed}))
 				}
 			}
@@ -118,7 +118,9 @@ func c13Match(step string, b *refbmc.BMC, getCount *int) bool {
 		return e.Kind == "open"
 	case "rakp1":
 		return e.Kind == "rakp1"
-	case "rakp3":
+	case "rakp3", "wrongpw":
+		// wrongpw: the caller's password is wrong, so RAKP 2 does not verify;
+		// anything the library sends after that meets the fault
 		return e.Kind == "rakp3"
 	case "insession":
 		return e.Kind == "session-ipmi" && e.NetFn == 6 && e.Cmd == 0x01
@@ -188,6 +190,8 @@ func c13UDP(run *ev.Run, p c13P, cs ev.Case) string {
 			return [][]byte{reply}, timeout + 60*time.Millisecond
 		case "garbage":
 			return [][]byte{rbytes(r, 1+r.Intn(60))}, 0
+		case "ffrun":
+			return [][]byte{c13FFRun(b, r)}, 0
 		case "trunc":
 			if len(reply) > 4 {
 				return [][]byte{reply[:len(reply)/2]}, 0
@@ -211,6 +215,9 @@ func c13UDP(run *ev.Run, p c13P, cs ev.Case) string {
 	opts := &bmc.V2SessionOpts{SessionOpts: bmc.SessionOpts{Username: cfg.Username, Password: cfg.Password, MaxPrivilegeLevel: ipmi.PrivilegeLevelAdministrator}, CipherSuites: []ipmi.CipherSuite{ipmi.CipherSuite3}}
 	if p.Step == "discovery" {
 		opts.CipherSuites = nil
+	}
+	if p.Step == "wrongpw" {
+		opts.Password = append(append([]byte(nil), opts.Password...), 0x78)
 	}
 	var sess *bmc.V2Session
 	needSession := p.Step == "insession" || p.Step == "close" || len(p.Step) > 4 && p.Step[:4] == "sdr-"
@@ -245,7 +252,7 @@ func c13UDP(run *ev.Run, p c13P, cs ev.Case) string {
 			switch p.Step {
 			case "sessionless":
 				_, callErr = st.GetSystemGUID(ctx)
-			case "discovery", "open", "rakp1", "rakp3":
+			case "discovery", "open", "rakp1", "rakp3", "wrongpw":
 				_, callErr = st.NewV2Session(ctx, opts)
 			case "insession":
 				_, callErr = sess.GetDeviceID(ctx)
@@ -285,7 +292,11 @@ func c13UDP(run *ev.Run, p c13P, cs ev.Case) string {
 	}
 	run.Eval(1)
 	run.Event("datagrams-received-by-bmc", int(srv.Received.Load()))
-	if faultOn || p.Deadline <= 0 {
+	if p.Step == "wrongpw" && callErr == nil {
+		run.Violation("C13:success-without-valid-response:wrongpw", fmt.Sprintf("%s: a session was returned although the password is wrong", desc), cs, nil)
+		return "violated"
+	}
+	if faultOn || p.Deadline <= 0 || p.Step == "wrongpw" {
 		run.Nontrivial(fmt.Sprintf("%s|%s|%d:%d", p.Step, p.Fault, p.Timeout, p.Deadline))
 	} else {
 		run.Observe("fault-step-never-reached:"+p.Step, 1)
@@ -339,6 +350,8 @@ func c13Mem(run *ev.Run, l c13L, cs ev.Case) {
 			return nil, nil
 		case "garbage":
 			return []byte{6, 0, 0xff, 7, 6, 0x55, 1}, nil
+		case "ffrun":
+			return c13FFRun(b, r), nil
 		case "busy":
 			if e := b.Last(); e != nil && (e.Kind == "session-ipmi" || e.Kind == "sessionless-ipmi") && e.Problem == "" {
 				m := refbmc.RespMsg(e, 0xc0, nil)
@@ -358,6 +371,9 @@ func c13Mem(run *ev.Run, l c13L, cs ev.Case) {
 	if l.Step == "discovery" {
 		opts.CipherSuites = nil
 		cssrv.Data = refbmc.EncodeSuiteRecords([]refbmc.SuiteRecord{{ID: 3, Auth: 1, Integs: []byte{1}, Confs: []byte{1}}, {ID: 17, Auth: 3, Integs: []byte{4}, Confs: []byte{1}}})
+	}
+	if l.Step == "wrongpw" {
+		opts.Password = append(append([]byte(nil), opts.Password...), 0x78)
 	}
 	var sess *bmc.V2Session
 	var err error
@@ -385,7 +401,7 @@ func c13Mem(run *ev.Run, l c13L, cs ev.Case) {
 		switch l.Step {
 		case "sessionless":
 			_, callErr = st.GetSystemGUID(ctx)
-		case "discovery", "open", "rakp1", "rakp3":
+		case "discovery", "open", "rakp1", "rakp3", "wrongpw":
 			_, callErr = st.NewV2Session(ctx, opts)
 		case "insession":
 			_, callErr = sess.GetDeviceID(ctx)
@@ -445,4 +461,28 @@ func c13Mem(run *ev.Run, l c13L, cs ev.Case) {
 			return
 		}
 	}
+}
+
+// c13FFRun is a datagram that claims to be authenticated and ends in a long
+// run of 0xFF bytes, the value of the integrity pad: more of them than a pad
+// length byte can count.
+func c13FFRun(b *refbmc.BMC, r *rand.Rand) []byte {
+	var sid uint32
+	if b.Sess != nil {
+		sid = b.Sess.ConsoleSID
+	}
+	n := 16 * r.Intn(3)
+	d := []byte{6, 0, 0xff, 7, 6, []byte{0x40, 0xc0}[r.Intn(2)]}
+	d = append(d, refbmc.LE32(sid)...)
+	d = append(d, refbmc.LE32(uint32(1+r.Intn(100)))...)
+	d = append(d, byte(n), 0)
+	d = append(d, rbytes(r, n)...)
+	for i := 255 + r.Intn(200); i > 0; i-- {
+		d = append(d, 0xff)
+	}
+	if r.Intn(2) == 0 {
+		d = append(d, 2, 7)
+		d = append(d, rbytes(r, 12)...)
+	}
+	return d
 }
